@@ -19,7 +19,7 @@ theorem bind_ok' {α β} {x : R α} {f : α → R β} {b : β} : (x >>= f) = .ok
   | ok a => simp [bind, Except.bind]
 
 theorem to_field_unknown_inv {o : Options} (h0 : o.overwrites = []) {n p : String} {nl : Bool} {f : Field}
-    (h : (Tracer.unknown n p nl).to_field o = .ok f) : f = .mk n .null nl [] := by
+    (h : (Tracer.unknown n p nl).to_field o = .ok f) : f = .mk n .null true [] := by
   rw [Tracer.to_field, wo_nil h0] at h
   split at h <;> cases h
   rfl
